@@ -218,6 +218,54 @@ def accessors(ctx, r, F):
         ctx.ob(r, ("InnerQRatios::" + nm, "getter"), e == want, "generated getter %s is %s; reference (bits >> %d) & 0x0f" % (nm, sym.fmt(e) if e else e, off), cfg=F.key, trivial=True)
 
 
+_QSEM = {}
+
+
+def _quartile_semantics(F, b, S, paths, size, nb):
+    """evaluate quartile(index) for every index < NUM_BUCKETS and every value of the byte it reads: the byte read is
+    data[size-1-index/4] and the result is (byte >> 2*(index%4)) & 3"""
+    from .. import evalx
+    from . import cfgdiff
+    if not nb:
+        return "NUM_BUCKETS unknown"
+    sig = (cfgdiff.body_sig(F, b), size, nb)
+    if sig in _QSEM:
+        return _QSEM[sig]
+    evalx.set_target(F)
+    data = ("field", ("deref", P(1)), 0)
+    why = None
+    try:
+        for i in range(nb):
+            for v in range(256):
+                pos = []
+
+                def hook(basev, iv):
+                    # a read of self.data[iv], in this function or in a helper it passes the array to
+                    if basev == ("fld", ("obj", "self"), 0):
+                        pos.append(iv)
+                        return v
+                    return None
+
+                asg = {"params": {1: ("obj", "self"), 2: i}, "load2": hook, "lazy_calls": {"core::slice::<impl [T]>::len": lambda raw: size}}
+                got = evalx.run(S, F, paths, asg)
+                want = (v >> (2 * (i % 4))) & 3
+                if pos and any(p_ != size - 1 - i // 4 for p_ in pos):
+                    why = "quartile(%d) reads data[%s]; reference data[%d]" % (i, pos, size - 1 - i // 4)
+                    break
+                if not pos:
+                    why = "quartile(%d) does not read the body" % i
+                    break
+                if got != want:
+                    why = "quartile(%d) with byte 0x%02x gives %s; reference %d" % (i, v, got, want)
+                    break
+            if why:
+                break
+    except (evalx.Unknown, evalx.Panics) as ex:
+        why = "cannot evaluate: %s" % ex
+    _QSEM[sig] = why
+    return why
+
+
 def quartile(ctx, r, F):
     bs = F.method("quartile", "hash::body::FuzzyHashBodyData<", trait="hash::body::FuzzyHashBody")
     ctx.instance(r, len(bs))
@@ -235,12 +283,9 @@ def quartile(ctx, r, F):
         div = [p for p in paths if p.end == "diverge"]
         data = ("field", ("deref", P(1)), 0)
         ln = ("call", "core::slice::<impl [T]>::len", (("ref", data),))
-        i = ("bin", "Sub", ("bin", "Sub", ("len", ("ref", data)), C(1)), ("bin", "Div", P(2), C(4)))
-        i2 = ("bin", "Sub", ("bin", "Sub", ln, C(1)), ("bin", "Div", P(2), C(4)))
-        sh = binop("Mul", ("bin", "Rem", P(2), C(4)), C(2))
-        wants = [n(binop("BitAnd", ("bin", "Shr", ("load", ("index", data, ix)), sh), C(3))) for ix in (i, i2)]
-        ok = len(rets) == 1 and n(rets[0].ret) in wants
+        why = _quartile_semantics(F, b, S, paths, size, nb)
+        ok = why is None
         gate = [(n(d), (taken == "otherwise") if vals == [0] else bool(taken)) for (_, d, taken, vals) in rets[0].conds] if rets else None
         okg = gate == [(("bin", "Lt", P(2), C(nb)), True)] and nb == 4 * size and len(div) == 1
-        ctx.ob(r, ("quartile<%d>" % size, "shape"), ok, "quartile is %s; reference (data[len-1-i/4] >> 2*(i%%4)) & 3" % (sym.fmt(n(rets[0].ret)) if rets else None), cfg=F.key, where=b.where())
+        ctx.ob(r, ("quartile<%d>" % size, "shape"), ok, "quartile(i) is not (data[len-1-i/4] >> 2*(i%%4)) & 3 for every i < NUM_BUCKETS and every byte value: %s" % why, cfg=F.key, where=b.where())
         ctx.ob(r, ("quartile<%d>" % size, "documented-assertion"), okg, "index assertion is %s with NUM_BUCKETS=%s; reference i < %d" % (gate, nb, 4 * size), cfg=F.key, where=b.where())
